@@ -184,6 +184,39 @@ def gen_reuse_desc(rng, couts=(2, 3, 4), dim=2):
     return {'C0': C0, 'T': T, 'dim': dim, 'prog': prog, 'wseed': rng.randrange(1 << 30)}
 
 
+def gen_siamese_desc(rng, couts=(2, 3, 4), dim=2):
+    """Siamese branches: ONE conv module `sh` applied to the outputs of two DIFFERENT producers
+    (relu(ca(x)) and relu(cb(x))), at the same or at two different resolutions, results summed. The
+    module owns a single in-quantizer / features calculator: after 3725f20 the two producers are tied
+    into one sharing component."""
+    C0 = rng.choice([2, 3]) if couts != (2, 4, 8) else rng.choice([2, 4])
+    T = rng.choice([6, 8])
+    prog = [['input']]
+
+    def add(ins):
+        prog.append(ins)
+        return len(prog) - 1
+    c1, c2 = rng.choice(list(couts)), rng.choice(list(couts))
+    ya = add(['relu', add(['conv', 0, c1, rng.choice([1, 3]), 1, int(rng.random() < 0.7)])])
+    cb = add(['conv', 0, c1, rng.choice([1, 3]), 1, int(rng.random() < 0.7)])
+    yb = add([rng.choice(['relu', 'relu6']), cb])
+    k, bias = rng.choice([1, 3]), int(rng.random() < 0.7)
+    sh = add(['conv', ya, c2, k, 1, bias])
+    u = add(['relu', sh])
+    if rng.random() < 0.5:      # same resolution
+        v = add(['relu', add(['reuse', yb, sh])])
+    else:                       # second call site at half resolution
+        pb = add(['pool', yb, rng.choice(['avg', 'max'])])
+        v = add(['relu', add(['reuse', pb, sh])])
+        u = add(['pool', u, rng.choice(['avg', 'max'])])
+    cur = add(['add', u, v] if rng.random() < 0.5 else ['add', v, u])
+    if rng.random() < 0.5:
+        cur = add(['relu', add(['conv', cur, rng.choice(list(couts)), rng.choice([1, 3]), 1, int(rng.random() < 0.7)])])
+    f = add(['flat', cur])
+    add(['lin', f, rng.choice([2, 4]) if couts == (2, 4, 8) else rng.choice([2, 3]), int(rng.random() < 0.8)])
+    return {'C0': C0, 'T': T, 'dim': dim, 'prog': prog, 'wseed': rng.randrange(1 << 30), 'siamese': 1}
+
+
 def _shapes(desc):
     """channels and spatial size of every instruction's output"""
     ch, sp = [], []
@@ -323,7 +356,8 @@ def model_nodes(desc):
             o0 = sp[i]
             o1 = sp[i] if dim == 2 else 1
             k1 = k if dim == 2 else 1
-            toks.append('conv:%d:%d:%d:%d:%d:%d:%d:%d:%d:1' % (mi[ins[1]], lt, ch[ins[1]], cout, k, k1, o0, o1, b))
+            # dup=1, ta = tensor fed to the first call site (tie edge of the sharing graph, 3725f20)
+            toks.append('conv:%d:%d:%d:%d:%d:%d:%d:%d:%d:1:%d' % (mi[ins[1]], lt, ch[ins[1]], cout, k, k1, o0, o1, b, mi[src0]))
             slots.append(('L', mi[i], i))
         elif op == 'lin':
             b = 1 if (ins[3] or i in has_bn) else 0
@@ -351,9 +385,13 @@ def input_component_consumers(desc):
             root_in[i], mps_on_chain[i] = True, False
         elif op in ('conv', 'lin', 'reuse'):
             root_in[i], mps_on_chain[i] = False, False
+        elif op == 'add':
+            # a sum with the network input (either operand) belongs to the input's component
+            root_in[i] = root_in[ins[1]] or root_in[ins[2]]
+            mps_on_chain[i] = True
         else:
             root_in[i] = root_in[ins[1]]
-            mps_on_chain[i] = mps_on_chain[ins[1]] or op in ('dw', 'add')
+            mps_on_chain[i] = mps_on_chain[ins[1]] or op == 'dw'
     return set(i for i, ins in enumerate(prog)
                if ins[0] in ('conv', 'dw', 'lin', 'reuse') and root_in[ins[1]] and mps_on_chain[ins[1]])
 
